@@ -364,12 +364,13 @@ def interpret(doc, data, resources, gs, out, problems, depth=0):
         subpaths = [sp for sp in path if len(sp[0]) >= 1]
         if paint in ('fill', 'both'):
             out.append(dict(kind='fill', rgb=gs.fill, alpha=gs.ca, path=[list(sp[0]) for sp in subpaths],
-                            evenodd=paint_eo[0], clips=gs.clips, ctm=gs.ctm))
+                            segs=[list(sp[2]) for sp in subpaths], evenodd=paint_eo[0], clips=gs.clips, ctm=gs.ctm))
         if paint in ('stroke', 'both'):
             out.append(dict(kind='stroke', rgb=gs.stroke, alpha=gs.CA, path=[list(sp[0]) for sp in subpaths],
                             closed=[sp[1] for sp in subpaths], lw=gs.lw, clips=gs.clips, ctm=gs.ctm, dash=gs.dash))
         if pending_clip is not None:
-            gs.clips = gs.clips + ((tuple(tuple(sp[0]) for sp in subpaths), pending_clip == 'eo'),)
+            gs.clips = gs.clips + ((tuple(tuple(sp[0]) for sp in subpaths), pending_clip == 'eo',
+                                    tuple(tuple(sp[2]) for sp in subpaths)),)
             pending_clip = None
         path, cur, start = [], None, None
     paint_eo = [False]
@@ -417,21 +418,25 @@ def interpret(doc, data, resources, gs, out, problems, depth=0):
                 gs.dash = (tuple(float(x) for x in a[0]), float(a[1]))
             elif op == 'm':
                 cur = start = pt(float(a[0]), float(a[1]))
-                path.append([[cur], False])
+                path.append([[cur], False, [('m', cur)]])
             elif op == 'l':
                 cur = pt(float(a[0]), float(a[1]))
                 path[-1][0].append(cur)
+                path[-1][2].append(('l', cur))
             elif op == 'c':
                 p1, p2, p3 = pt(float(a[0]), float(a[1])), pt(float(a[2]), float(a[3])), pt(float(a[4]), float(a[5]))
                 path[-1][0].extend(_bezier(cur, p1, p2, p3))
+                path[-1][2].append(('c', p3, p1, p2))
                 cur = p3
             elif op == 'v':
                 p2, p3 = pt(float(a[0]), float(a[1])), pt(float(a[2]), float(a[3]))
                 path[-1][0].extend(_bezier(cur, cur, p2, p3))
+                path[-1][2].append(('c', p3, cur, p2))
                 cur = p3
             elif op == 'y':
                 p1, p3 = pt(float(a[0]), float(a[1])), pt(float(a[2]), float(a[3]))
                 path[-1][0].extend(_bezier(cur, p1, p3, p3))
+                path[-1][2].append(('c', p3, p1, p3))
                 cur = p3
             elif op == 'h':
                 if path:
@@ -439,7 +444,8 @@ def interpret(doc, data, resources, gs, out, problems, depth=0):
                     cur = start
             elif op == 're':
                 x, y, w, h = (float(v) for v in a)
-                path.append([[pt(x, y), pt(x + w, y), pt(x + w, y + h), pt(x, y + h)], True])
+                path.append([[pt(x, y), pt(x + w, y), pt(x + w, y + h), pt(x, y + h)], True,
+                             [('re', pt(x, y), pt(x + w, y + h))]])
                 cur = start = pt(x, y)
             elif op in ('W', 'W*'):
                 pending_clip = 'eo' if op == 'W*' else 'nz'
@@ -971,6 +977,49 @@ def point_in_poly(pt, polys, evenodd):
     return (crossings % 2 == 1) if evenodd else (wn != 0)
 
 
+def shape_of(segs, geo):
+    """A subpath written by rounded_box (m l c l c l c l c) or a rectangle (re), axis aligned in css px ->
+    (x, y, w, h, [tlx, tly, trx, try, brx, bry, blx, bly]) or None."""
+    segs = list(segs)
+    if len(segs) == 1 and segs[0][0] == 're':
+        (x1, y1), (x2, y2) = geo.to_css(segs[0][1]), geo.to_css(segs[0][2])
+        return (min(x1, x2), min(y1, y2), abs(x2 - x1), abs(y2 - y1), [0.0] * 8)
+    if [s_[0] for s_ in segs] != ['m', 'l', 'c', 'l', 'c', 'l', 'c', 'l', 'c']:
+        return None
+    P = [geo.to_css(s_[1]) for s_ in segs]
+    m, l1, c1, l2, c2, l3, c3, l4, c4 = P
+    x, y = c3[0], m[1]
+    xr, yb = c1[0], c2[1]
+    flat = [abs(l1[1] - y), abs(l2[0] - xr), abs(l3[1] - yb), abs(l4[0] - x), abs(c4[0] - m[0]), abs(c4[1] - m[1])]
+    if max(flat) > 4 * TOL:
+        return None
+    return (x, y, xr - x, yb - y,
+            [m[0] - x, l4[1] - y, xr - l1[0], c1[1] - y, xr - c2[0], yb - l2[1], l3[0] - x, yb - c3[1]])
+
+
+def same_rect(shape, rect, tol=4 * TOL):
+    return shape is not None and all(abs(a - b) <= tol for a, b in zip(shape[:4], rect))
+
+
+def has_radii(r):
+    return any(v for v in r.get('oradii', []))
+
+
+def radius_case(r, which, shape, geo_rect):
+    """one render case for the Coq radius judge: border box size, outer radii, inset widths of `which`, observed
+    rounded box relative to the border box"""
+    bt, br, bb, bl = r['bt'], r['br'], r['bb'], r['bl']
+    if which == 'padding-box':
+        ins = (bt, br, bb, bl)
+    elif which == 'content-box':
+        ins = (bt + r['pt'], br + r['pr'], bb + r['pb'], bl + r['pl'])
+    else:
+        ins = (0.0, 0.0, 0.0, 0.0)
+    bx, by, bw, bh = geo_rect
+    return dict(W=bw, H=bh, R=r['oradii'], ins=list(ins), which=which,
+                obs=[shape[0] - bx, shape[1] - by, shape[2], shape[3]] + list(shape[4]))
+
+
 def match_tokens(tokens, leaves):
     """Walk the display list along the expected tokens.  Returns (pairs, error): pairs = [(token, [items])]."""
     i = 0
@@ -1040,9 +1089,18 @@ def css_containing_chain_has(boxes, n, a):
     return cur == a
 
 
-def judge_geometry(boxes, pairs, geo, doc, fonts_cache):
-    """Monitor B on the matched (token, items) pairs.  Returns [(clause, box, detail)]."""
+def judge_geometry(boxes, pairs, geo, doc, fonts_cache, rcases=None):
+    """Monitor B on the matched (token, items) pairs.  Returns [(clause, box, detail)].  rcases collects the rounded
+    shapes read from the stream (box, which, observed) for the Coq radius judge."""
     bad = []
+    if rcases is None:
+        rcases = []
+    seen_r = set()
+    def note(n, which, shape):
+        key = (n, which, tuple(round(v, 4) for v in shape[:4]) + tuple(round(v, 4) for v in shape[4]))
+        if key not in seen_r:
+            seen_r.add(key)
+            rcases.append(dict(radius_case(boxes[n], which, shape, geo.box_rect(n, 'border-box')), box=n))
     for (n, role, col), items in pairs:
         r = boxes[n]
         if role == 'collapsed' or not items:
@@ -1064,8 +1122,20 @@ def judge_geometry(boxes, pairs, geo, doc, fonts_cache):
             want = geo.rect_poly(a, geo.box_rect(a, 'padding-box'))
             if any(v is None for v in want):
                 continue
-            has = all(any(len(cl[0]) == 1 and same_poly([geo.to_css(p) for p in cl[0][0]], want) for cl in it['clips'])
-                      for it in items)
+            if has_radii(ra):
+                # rounded clip: identify it by its rectangle, hand the corner extents to the radius judge
+                rect = geo.box_rect(a, 'padding-box')
+                has = True
+                for it in items:
+                    found = [sh for sh in (shape_of(cl[2][0], geo) for cl in it['clips'] if len(cl[2]) == 1)
+                             if same_rect(sh, rect)]
+                    if not found:
+                        has = False
+                    for sh in found:
+                        note(a, 'padding-box', sh)
+            else:
+                has = all(any(len(cl[0]) == 1 and same_poly([geo.to_css(p) for p in cl[0][0]], want) for cl in it['clips'])
+                          for it in items)
             on_chain = css_containing_chain_has(boxes, n, a)
             if on_chain and not has:
                 bad.append(('overflow-clip-missing', n, 'ancestor %d clips its contents, no such clip on the item' % a))
@@ -1083,10 +1153,17 @@ def judge_geometry(boxes, pairs, geo, doc, fonts_cache):
                 bad.append(('background-rect', n, 'fill %s, %s prescribes %s' % (
                     [[(round(x, 3), round(y, 3)) for x, y in sp] for sp in got][:2], which,
                     [(round(x, 3), round(y, 3)) for x, y in want])))
-            if any(any(c for c in corner) for corner in r['radii']) is False:
+            if not has_radii(r):
                 # zero radii: the clip of the painting box is the same rectangle
                 if not any(len(cl[0]) == 1 and same_poly([geo.to_css(p) for p in cl[0][0]], want) for cl in it['clips']):
                     bad.append(('background-clip-box', n, 'no clip equal to the %s' % which))
+            else:
+                found = [sh for sh in (shape_of(cl[2][0], geo) for cl in it['clips'] if len(cl[2]) == 1)
+                         if same_rect(sh, geo.box_rect(n, which))]
+                if not found:
+                    bad.append(('background-clip-box', n, 'no rounded clip on the %s' % which))
+                if found:
+                    note(n, which, found[0])
         elif role == 'border':
             outer = geo.rect_poly(n, geo.box_rect(n, 'border-box'))
             inner = geo.rect_poly(n, geo.box_rect(n, 'padding-box'))
@@ -1097,6 +1174,15 @@ def judge_geometry(boxes, pairs, geo, doc, fonts_cache):
             if len(items) != want_items:
                 bad.append(('border-fills', n, '%d fills for sides %s' % (len(items), ''.join(sides))))
             for it in items:
+                if has_radii(r):
+                    shapes = [shape_of(sg, geo) for sg in it['segs']]
+                    rin, rout = geo.box_rect(n, 'padding-box'), geo.box_rect(n, 'border-box')
+                    if not (len(shapes) == 2 and it['evenodd'] and same_rect(shapes[0], rin) and same_rect(shapes[1], rout)):
+                        bad.append(('border-area', n, 'fill is not rounded border box minus rounded padding box: %s' % (shapes,)))
+                        break
+                    note(n, 'padding-box', shapes[0])
+                    note(n, 'border-box', shapes[1])
+                    continue
                 got = [[geo.to_css(p) for p in sp] for sp in it['path']]
                 if not (len(got) == 2 and it['evenodd'] and
                         ((same_poly(got[0], inner) and same_poly(got[1], outer)) or
@@ -1118,7 +1204,7 @@ def judge_geometry(boxes, pairs, geo, doc, fonts_cache):
                     if not it['clips']:
                         bad.append(('border-side-clip', n, 'side %s has no clip' % s))
                         continue
-                    polys, eo = it['clips'][-1]
+                    polys, eo = it['clips'][-1][:2]
                     polys = [[geo.to_css(p) for p in sp] for sp in polys]
                     pm = geo.map_point(n, mid[s])
                     po = geo.map_point(n, (mid[opp[s]][0], mid[opp[s]][1]))
@@ -1268,7 +1354,8 @@ def judge_doc(case):
             bad.append(('paint-order' if not explained else 'paint-order:' + '+'.join(explained),
                         tok[0] if tok else 0, detail))
         geo = PageGeometry(boxes, dl['mediabox'])
-        bad.extend(judge_geometry(boxes, pairs, geo, doc, fonts_cache))
+        rcases = []
+        bad.extend(judge_geometry(boxes, pairs, geo, doc, fonts_cache, rcases))
         observed = []
         for it in leaves:
             idx = colour_index(it['rgb']) if isinstance(it.get('rgb'), tuple) and len(it['rgb']) == 3 else None
@@ -1279,7 +1366,8 @@ def judge_doc(case):
                                        'hid', 'rcl', 'bits', 'cls')}, b['kids']] for b in boxes],
             out=pg['out'], identity=pg['identity'], observed=observed,
             paints=[[n, role, col if not isinstance(col, tuple) else list(col)] for n, role, col in tokens],
-            inkrows=ink_rows(boxes),
+            inkrows=ink_rows(boxes), rcases=rcases,
+            boxdesc={str(rc['box']): describe(boxes, rc['box']) for rc in rcases},
             head=len(head)))
     return res
 
@@ -1303,6 +1391,19 @@ WITNESSES = {
 }
 WITNESS_CSS = ('<style>@page{size:100px;margin:0}html{background:none}body{margin:0;font-family:weasyprint;'
                'font-size:10px;line-height:10px;color:#500}table{border-spacing:0}td{padding:0}</style>')
+
+
+RADIUS_WITNESS = dict(cw='60', ch='100', bw=['0', '0', '0', '40'], pd=['0', '0', '0', '0'], radii=['80'] * 8, px='0', py='0',
+                      ml='0', mt='0', mode=2, args=['0', '0', '0', '0'], regime=1)
+RADIUS_DOC = ('<html id="e0"><style>@page{size:100px;margin:0}html{background:none}body{margin:0;font-family:weasyprint;'
+              'font-size:10px;line-height:10px;color:#500}</style><body id="e1">'
+              '<div id="e2" style="width:50px;height:50px;border-style:solid;border-color:#900;border-width:4px 6px 2px 12px;'
+              'border-radius:14px 18px 22px 20px / 10px 16px 12px 20px;padding:1px 2px 3px 5px;background:#700;'
+              'background-clip:padding-box;overflow:hidden;color:#800">'
+              '<div id="e3" style="width:50px;height:50px;background:#a00;color:#b00">ab</div></div>'
+              '<div id="e4" style="width:40px;height:30px;border-style:solid;border-color:#f00;border-width:3px 9px 7px 1px;'
+              'border-radius:12px;background:#d00;background-clip:content-box;padding:2px 4px 6px 8px;color:#e00">cd</div>'
+              '</body></html>')
 
 
 def page_box_term(nodes):
@@ -1443,6 +1544,51 @@ def check(run):
     except RuntimeError as exc:
         run.oblige('corr:frombox-synth', False, str(exc))
 
+    # ------------------------------------------- stream R1: Box.rounded_box and its callers, exact direct calls
+    n_rad = 3000 if thorough else 420
+    rcs = [RADIUS_WITNESS] + [gen_radius_case(rng, k) for k in range(n_rad)]
+    outs = common.run_impl('impl_c17', 'rounded_direct', rcs)
+    terms, kept = [], []
+    for c, (st, o) in zip(rcs, outs):
+        if st != 'ok':
+            run.fail('Box.rounded_box raised', {'stream': 'radius-direct', 'case': c, 'outcome': o},
+                     signature='crash:rounded_box:%s' % (o.get('type') if isinstance(o, dict) else st))
+            continue
+        terms.append(radius_case_term(c, o))
+        kept.append((c, o))
+    try:
+        masks = common.eval_cases('c17rad_%d' % os.getpid(), PRE_R, RCASE_T, terms, 'radius_call_judge')
+        mism = [k for k, m in zip(kept, masks) if m & 1]
+        run.oblige('corr:radius-direct(model rounded_box = Box.rounded_box, exact)', not mism,
+                   'first disagreement: %s' % (mism[:1],))
+        done_sig = False
+        for (c, o), m in zip(kept, masks):
+            if m & 2 and not m & 4:
+                run.fail('rounded_box: inner radii are not outer radius minus the adjacent side widths: case %s -> %s' % (c, o),
+                         {'stream': 'radius-direct', 'case': c, 'impl_output': o})
+                break
+        for (c, o), m in zip(kept, masks):
+            if m & 2 and m & 4 and not done_sig:
+                done_sig = True
+                run.fail('rounded_box: overlapping outer radii: inner radii taken from the unscaled radii: case %s -> %s' % (c, o),
+                         {'stream': 'radius-direct', 'case': c, 'impl_output': o},
+                         signature='c17:inner-radii-from-unscaled-outer')
+        run.oblige('witness:inner-radii-from-unscaled-outer reproduces on the implementation',
+                   bool(kept) and kept[0][0] is RADIUS_WITNESS and masks[0] & 6 == 6,
+                   'the refuted theorem C17_inner_curve_leaves_outer_when_radii_overlap_refuted no longer shows on /repo')
+        run.count('radius-direct', len(kept),
+                  [(c['regime'], c['mode'], m & 6, len(set(c['bw']))) for (c, o), m in zip(kept, masks)],
+                  samples=[{'case': kept[1][0], 'impl': kept[1][1]}] if len(kept) > 1 else [])
+        run.stream_info('radius-direct', overlap_cases=sum(1 for m in masks if m & 4),
+                        css_deviations_with_overlap=sum(1 for m in masks if m & 6 == 6),
+                        rule='stub BlockBox with Fraction fields: content size, four different border widths, paddings, eight '
+                             'radii in six regimes (small, overlapping, around the border widths, exactly touching, square '
+                             'corners, 0/huge), calls of rounded_box(args) / rounded_border_box / rounded_padding_box / '
+                             'rounded_content_box / rounded_box_ratio(k); exact comparison with the model and with the CSS rule '
+                             'inside Coq; distinct = (regime, entry point, deviation bits, number of distinct widths)')
+    except RuntimeError as exc:
+        run.oblige('corr:radius-direct', False, str(exc))
+
     # ------------------------------------------------- streams 2-4: documents -> from_page tie, monitors A and B
     n_docs = 1500 if thorough else 140
     docs = []
@@ -1450,11 +1596,17 @@ def check(run):
         prof = 'strict' if k % 4 == 0 else 'full'
         html, feats, n_el = gen_doc(rng, prof)
         docs.append(dict(html=html, features=feats, profile=prof))
+    n_rdocs = 400 if thorough else 50
+    docs.append(dict(html=RADIUS_DOC, features=['fixed:radius-asymmetric'], profile='radius'))
+    for k in range(n_rdocs):
+        html, feats = gen_radius_doc(rng)
+        docs.append(dict(html=html, features=feats, profile='radius'))
     for name, body in sorted(WITNESSES.items()):
         docs.append(dict(html='<html id="e0">%s<body id="e1">%s</body></html>' % (WITNESS_CSS, body), features=['witness:' + name],
                          profile='witness', witness=name))
     outs = common.run_impl('p_c17', 'judge_doc', [{'html': d['html']} for d in docs], limit=120, chunksize=2)
     page_cases, disp_cases, meta = [], [], []
+    rad_cases, rad_meta = [], []
     clauses = {}
     feats_seen = set()
     n_items = n_tokens = n_pages = 0
@@ -1485,6 +1637,9 @@ def check(run):
                 fail_signed(run, '%s: %s %s' % (clause, desc, detail),
                             {'stream': 'display', 'html': d['html'], 'page': pi, 'clause': clause, 'box': n, 'detail': detail},
                             clause)
+            for rc in pg['rcases']:
+                rad_cases.append(render_radius_term(rc))
+                rad_meta.append((d, pi, rc, pg['boxdesc'].get(str(rc['box']), '')))
             nodes = pg['nodes']
             if not pg['identity']:
                 run.oblige('corr:frompage-identity', False, d['html'][:2000])
@@ -1556,6 +1711,34 @@ def check(run):
         run.stream_info('display', coq_spec_pages=sum(1 for k in masks if not k & 4))
     except RuntimeError as exc:
         run.oblige('corr:display', False, str(exc))
+    try:
+        masks = common.eval_cases('c17rr_%d' % os.getpid(), PRE_R, RRENDER_T, rad_cases, 'radius_render_judge', per_file=400)
+        mism = [m_ for m_, k in zip(rad_meta, masks) if k & 1]
+        run.oblige('corr:radius-render(corner extents of the m/l/c paths = model rounded_box)', not mism,
+                   'first disagreement: %s' % (((mism[0][2], mism[0][0]['html'][:2000]) if mism else ''),))
+        seen_docs = set()
+        for (d, pi, rc, desc), k in zip(rad_meta, masks):
+            if not k & 2 or (id(d), bool(k & 4)) in seen_docs:
+                continue
+            seen_docs.add((id(d), bool(k & 4)))
+            what = ('rounded %s of %s: corner radii %s read from the content stream, border box %sx%s, outer radii %s, '
+                    'inset %s' % (rc['which'], desc, [round(v, 3) for v in rc['obs'][4:]], rc['W'], rc['H'], rc['R'], rc['ins']))
+            data = {'stream': 'display', 'html': d['html'], 'page': pi, 'clause': 'corner-radii', 'box': rc['box'], 'case': rc}
+            if k & 4:
+                run.fail(what + ' [outer radii overlap]', data, signature='c17:inner-radii-from-unscaled-outer')
+            else:
+                run.fail(what, data)
+        run.count('radius-render', len(rad_cases), [(rc['which'], k & 6, tuple(sorted(set(rc['ins']))) != (0.0,),
+                                                     len([v for v in rc['R'] if v])) for (_, _, rc, _), k in zip(rad_meta, masks)],
+                  samples=[rad_meta[0][2]] if rad_meta else [])
+        run.stream_info('radius-render', overlap=sum(1 for k in masks if k & 4),
+                        rule='every rounded path of the display list of the radius documents (clip of background-clip '
+                             'border/padding/content-box, the two curves of each border ring fill, the overflow clip on each '
+                             'descendant item): m/l/c operators -> rectangle + eight corner extents, compared inside Coq with '
+                             'the model and with the CSS rule, tolerance 1/200 px; boxes with four different border widths, '
+                             'elliptical / percentage / overlapping radii, paddings, background-clip, overflow:hidden, nested')
+    except RuntimeError as exc:
+        run.oblige('corr:radius-render', False, str(exc))
     run.count('display', n_pages, [tuple(d['features']) for d in docs],
               samples=[docs[0]['html'][:800]])
     run.stream_info('display', items=n_items, paints=n_tokens, features=sorted(feats_seen), clauses=clauses,
@@ -1588,7 +1771,23 @@ def replay(data):
                                             bits_term([(i['kind'], i['bits']) for i, _ in nodes])))
         masks = common.eval_cases('c17replay_%d' % os.getpid(), PRE, 'box * pnode * list (kind * Z)', cases, 'frompage_judge2', per_file=12)
         print('replay: Coq masks per page (1 model<>impl, 2 spec<>paint, 4 not well-formed, 8 not painted once):', masks)
-        return 1 if bad or any(m & 11 for m in masks) else 0
+        rcs = [rc for pg in o['pages'] for rc in pg['rcases']]
+        rmasks = []
+        if rcs:
+            rmasks = common.eval_cases('c17replay_%d' % os.getpid(), PRE_R, RRENDER_T, [render_radius_term(rc) for rc in rcs],
+                                       'radius_render_judge', per_file=400)
+            for rc, k in zip(rcs, rmasks):
+                if k & 3:
+                    print('replay: corner radii (1 model<>stream, 2 CSS<>stream, 4 outer radii overlap): mask %d %s' % (k, rc))
+        return 1 if bad or any(m & 11 for m in masks) or any(k & 3 for k in rmasks) else 0
+    if d.get('stream') == 'radius-direct':
+        (st, o), = common.run_impl('impl_c17', 'rounded_direct', [d['case']])
+        print('replay: implementation output', st, o)
+        if st != 'ok':
+            return 1
+        m = common.eval_cases('c17replay_%d' % os.getpid(), PRE_R, RCASE_T, [radius_case_term(d['case'], o)], 'radius_call_judge')
+        print('replay: mask (1 model<>impl, 2 CSS rule<>impl, 4 outer radii overlap)', m)
+        return 1 if m[0] & 3 else 0
     if d.get('stream') == 'frombox-synth':
         (st, o), = common.run_impl('impl_c17', 'stacking_synth', [{'tree': d['tree']}])
         print('replay:', st, o if st != 'ok' else o['out'])
@@ -1603,3 +1802,163 @@ def replay(data):
         return 1 if m[0] & 3 else 0
     print('nothing to replay for', d.get('stream'))
     return 0
+
+
+# =====================================================================================================
+#  Rounded corners: exact direct calls of Box.rounded_box and its callers (stream radius-direct)
+# =====================================================================================================
+
+PRE_R = ('From Coq Require Import QArith List Bool.\nRequire Import WV.model.C17Radius.\n'
+         'Import ListNotations.\nOpen Scope Q_scope.\n')
+RCASE_T = '(Q * Q) * radii * (Q * Q * Q * Q) * (Q * Q * Q * Q) * (nat * (Q * Q * Q * Q)) * rbox'
+
+
+def gen_radius_case(rng, k):
+    from fractions import Fraction as F
+    def q(lo, hi, dens=(1, 1, 2, 3)):
+        return F(rng.randint(lo, hi), rng.choice(dens))
+    regime = k % 6
+    cw, ch = q(0, 120), q(0, 90)
+    # four different border widths most of the time
+    bw = rng.sample([F(0), F(1), F(2), F(3), F(5), F(8), F(12), F(20), F(7, 2), F(31, 3)], 4)
+    if regime == 5:
+        bw = [rng.choice([F(0), F(4)]) for _ in range(4)]
+    pd = [q(0, 9) if rng.random() < 0.6 else F(0) for _ in range(4)]
+    W = cw + pd[1] + pd[3] + bw[1] + bw[3]
+    H = ch + pd[0] + pd[2] + bw[0] + bw[2]
+    if regime == 0:       # small radii: nothing overlaps
+        radii = [q(0, 25) for _ in range(8)]
+    elif regime == 1:     # outer radii overlap (5.5 scaling)
+        radii = [q(30, 400) for _ in range(8)]
+    elif regime == 2:     # radii around the border widths (clipping at 0 per axis)
+        radii = [rng.choice(bw) + rng.choice([F(-1), F(0), F(0), F(1), F(1, 2), F(6)]) for _ in range(8)]
+        radii = [max(F(0), r) for r in radii]
+    elif regime == 3:     # exactly touching: sums equal to the sides
+        a, b = q(0, 60), q(0, 60)
+        radii = [a, b, max(F(0), W - a), q(0, 40), q(0, 40), max(F(0), H - b), q(0, 30), q(0, 30)]
+    elif regime == 4:     # some corners square
+        radii = [q(0, 80) if rng.random() < 0.5 else F(0) for _ in range(8)]
+    else:
+        radii = [rng.choice([F(0), F(10), F(50), F(9999)]) for _ in range(8)]
+    mode = rng.choice([0, 0, 1, 2, 2, 2, 3, 3, 4])
+    if mode == 0:
+        args = [rng.choice(bw + [q(0, 30)]) for _ in range(4)]
+    elif mode == 4:
+        args = [rng.choice([F(1, 2), F(1, 3), F(2, 3), F(1)]), F(0), F(0), F(0)]
+    else:
+        args = [F(0)] * 4
+    return dict(cw=str(cw), ch=str(ch), bw=[str(v) for v in bw], pd=[str(v) for v in pd], radii=[str(v) for v in radii],
+                px=str(q(-20, 50)), py=str(q(-20, 50)), ml=str(q(-5, 9)), mt=str(q(-5, 9)), mode=mode,
+                args=[str(v) for v in args], regime=regime)
+
+
+def radius_case_term(c, out):
+    from fractions import Fraction as F
+    def q4(l):
+        return '(%s, %s, %s, %s)' % tuple(qlit(F(v)) for v in l)
+    def rad(l):
+        return '(mkR %s)' % ' '.join(qlit(F(v)) for v in l)
+    return '((%s, %s), %s, %s, %s, (%d%%nat, %s), (mkRB %s %s %s %s %s))' % (
+        qlit(F(c['cw'])), qlit(F(c['ch'])), rad(c['radii']), q4(c['bw']), q4(c['pd']), c['mode'], q4(c['args']),
+        qlit(F(out[0])), qlit(F(out[1])), qlit(F(out[2])), qlit(F(out[3])), rad(out[4:]))
+
+
+def qlit(fr):
+    return common.qlit(fr)
+
+
+# =====================================================================================================
+#  Rounded corners in renders (stream radius-render): documents, Coq cases
+# =====================================================================================================
+
+def gen_radius_doc(rng):
+    """Blocks / inline-blocks / floats with four different border widths, elliptical radii, background-clip,
+    padding, overflow:hidden with children; no transforms (corner extents are read axis aligned)."""
+    n = [2]
+    feats = set()
+
+    def radius(w_hint):
+        r = rng.random()
+        if r < 0.15:
+            feats.add('r:single')
+            return 'border-radius:%dpx' % rng.choice([3, 6, 10, 16, 24])
+        if r < 0.40:
+            feats.add('r:four')
+            return 'border-radius:%s' % ' '.join('%dpx' % rng.choice([0, 2, 5, 9, 14, 20, 30]) for _ in range(4))
+        if r < 0.70:
+            feats.add('r:elliptical')
+            return 'border-radius:%s / %s' % (' '.join('%dpx' % rng.choice([0, 4, 8, 13, 21, 34]) for _ in range(4)),
+                                              ' '.join('%dpx' % rng.choice([0, 3, 7, 12, 18, 27]) for _ in range(4)))
+        if r < 0.80:
+            feats.add('r:percent')
+            return 'border-radius:%s' % rng.choice(['50%', '20% 40%', '10% 30% 50% 25%', '25% / 50%'])
+        if r < 0.90:
+            feats.add('r:overlap')
+            return 'border-radius:%s' % rng.choice(['80px', '9999px', '60px 200px 40px 100px / 90px 30px 120px 50px',
+                                                      '100px 0 100px 0'])
+        feats.add('r:one-corner')
+        corner = rng.choice(['top-left', 'top-right', 'bottom-right', 'bottom-left'])
+        return 'border-%s-radius:%dpx %dpx' % (corner, rng.choice([6, 12, 20, 28]), rng.choice([5, 11, 20, 33]))
+
+    def block(depth):
+        k = n[0]
+        n[0] += 1
+        widths = rng.sample([1, 2, 3, 5, 8, 12, 17], 4)
+        if rng.random() < 0.15:
+            widths[rng.randrange(4)] = 0
+        if rng.random() < 0.1:
+            widths = [rng.choice([2, 6])] * 4
+        st = ['background:%s' % colour(3 * k), 'color:%s' % colour(3 * k + 1),
+              'border-style:solid', 'border-color:%s' % colour(3 * k + 2),
+              'border-width:%s' % ' '.join('%dpx' % w for w in widths),
+              'width:%dpx' % rng.choice([20, 35, 50, 70]), 'height:%dpx' % rng.choice([15, 30, 45, 60]), radius(0)]
+        if rng.random() < 0.6:
+            st.append('padding:%s' % ' '.join('%dpx' % rng.choice([0, 1, 3, 6, 10]) for _ in range(4)))
+        if rng.random() < 0.7:
+            clip = rng.choice(['padding-box', 'content-box', 'border-box'])
+            st.append('background-clip:%s' % clip)
+            feats.add('clip:' + clip)
+        ovf = rng.random() < 0.55
+        if ovf:
+            st.append('overflow:hidden')
+            feats.add('overflow')
+        r = rng.random()
+        if r < 0.2:
+            st.append('float:%s' % rng.choice(['left', 'right']))
+        elif r < 0.35:
+            st.append('display:inline-block')
+        elif r < 0.45:
+            st.append('margin:%dpx %dpx' % (rng.choice([2, 5]), rng.choice([0, 4])))
+        inner = ''
+        if depth < 2 and rng.random() < (0.8 if ovf else 0.4):
+            if rng.random() < 0.5:
+                inner = block(depth + 1)
+            else:
+                c = n[0]
+                n[0] += 1
+                inner = '<div id="e%d" style="background:%s;color:%s;width:%dpx;height:%dpx">%s</div>' % (
+                    c, colour(3 * c), colour(3 * c + 1), rng.choice([30, 60, 90]), rng.choice([20, 50, 80]),
+                    rng.choice(WORDS))
+        elif rng.random() < 0.5:
+            inner = rng.choice(WORDS)
+        return '<div id="e%d" style="%s">%s</div>' % (k, ';'.join(st), inner)
+
+    body = ''.join(block(0) for _ in range(rng.choice([2, 3, 4])))
+    css = ('@page{size:300px 2000px;margin:0}html{background:none;color:%s}body{margin:6px;background:none;color:%s;'
+           'font-family:weasyprint;font-size:10px;line-height:10px}' % (colour(1), colour(4)))
+    return '<html id="e0"><style>%s</style><body id="e1">%s</body></html>' % (css, body), sorted(feats)
+
+
+def render_radius_term(c):
+    from fractions import Fraction as F
+    def q(v):
+        return qlit(F(round(v * 10000), 10000))
+    def rad(l):
+        return '(mkR %s)' % ' '.join(q(v) for v in l)
+    o = c['obs']
+    return '((%s, %s), %s, (%s, %s, %s, %s), (mkRB %s %s %s %s %s))' % (
+        q(c['W']), q(c['H']), rad(c['R']), q(c['ins'][0]), q(c['ins'][1]), q(c['ins'][2]), q(c['ins'][3]),
+        q(o[0]), q(o[1]), q(o[2]), q(o[3]), rad(o[4:]))
+
+
+RRENDER_T = '(Q * Q) * radii * (Q * Q * Q * Q) * rbox'
